@@ -10,8 +10,9 @@
    [dec_nan], [dec_ragged] read the content back (what `to_long().dropna()` /
    the `~np.isnan` masks of the code do).  [A] = abscissae (decidable equality
    [eqb]), [V] = values; numbers are only moved. *)
-From Coq Require Import List Bool.
+From Coq Require Import List Bool QArith.
 Import ListNotations.
+Local Close Scope Q_scope.
 
 Section Encoding.
   Context {A V : Type} (eqb : A -> A -> bool).
@@ -59,3 +60,34 @@ Inductive subseq {A : Type} : list A -> list A -> Prop :=
 | subseq_nil : subseq [] []
 | subseq_take : forall x l1 l2, subseq l1 l2 -> subseq (x :: l1) (x :: l2)
 | subseq_skip : forall x l1 l2, subseq l1 l2 -> subseq l1 (x :: l2).
+
+(* ---- the pooled mean and the defect model of finding F14 ----
+   `IrregularFunctionalData.mean(method_smoothing="PS")` first lays the long table out on
+   the grid of distinct abscissae (psplines.py:_format_data) and hands (y_grid, weights) to
+   the P-spline fit (property C05).
+   [format_pooled]: what a mean requires — per grid point the MEAN of the values observed
+                    there, weighted by their NUMBER (the penalised least-squares fit of the
+                    pooled observations);
+   [format_last]  : what the unrepaired code does — per grid point the LAST value observed
+                    there (long-table order: curve by curve), weight 1, except weight 0 where
+                    that value is exactly 0 or nothing is observed. *)
+Definition obs_at {A V : Type} (eqb : A -> A -> bool) (t : A) (ct : @content A V) : list V :=
+  flat_map (fun c => match lookup eqb t c with Some v => [v] | None => [] end) ct.
+Definition last_opt {V : Type} (l : list V) : option V :=
+  match rev l with [] => None | v :: _ => Some v end.
+Local Open Scope Q_scope.
+Definition qsum (l : list Q) : Q := fold_right Qplus 0 l.
+
+Definition format_pooled (eqb : Q -> Q -> bool) (grid : list Q) (ct : @content Q Q) : list (Q * Q) :=
+  map (fun t => let vs := obs_at eqb t ct in
+                match vs with
+                | [] => (0, 0)
+                | _ => let n := inject_Z (Z.of_nat (length vs)) in (Qred (qsum vs / n), n)
+                end) grid.
+Definition format_last (eqb : Q -> Q -> bool) (grid : list Q) (ct : @content Q Q) : list (Q * Q) :=
+  map (fun t => match last_opt (obs_at eqb t ct) with
+                | Some v => (v, if Qeq_bool v 0 then 0 else 1)
+                | None => (0, 0)
+                end) grid.
+Definition mean_pooled eqb grid ct : list Q := map fst (format_pooled eqb grid ct).
+Definition mean_last eqb grid ct : list Q := map fst (format_last eqb grid ct).
